@@ -23,7 +23,9 @@ def run(ctx):
     res.rule("C08-R7", "a frame is built with this call's sizes and every chunk is cut at full width: frame template, free count and min/max are "
                         "(re)defined from this call's DataContext before use (shared with C10-R2/C07-R7); the room `free - 16` reaches min() "
                         "without narrowing and every write lands inside the frame (shared with C07-R6)")
-    res.not_decided += ["'fits => appended', 'segment alone in its frame', 'all but last fill to max' (depend on run-time sizes)"]
+    res.rule("C08-R8", "a last segment closes its frame: on every loop-body path taken with the flag == lastSegment the free-byte count ends at the "
+                        "constant 0 (or a frame is opened) after the slice was placed")
+    res.not_decided += ["'fits => appended', 'all but last fill to max' (depend on run-time sizes)"]
     E.rule_flag_table(res, "C08-R1", m)
     obs, ast = accessors.analyse(fb, ctx.spec("layout.json"), scope=lambda cls, stem: cls == "ASAM::CMP::MessageHeader" and stem == "SegmentType")
     for o in obs:
@@ -49,6 +51,8 @@ def run(ctx):
     E.rule_header_fully_stamped(res, "C08-R6", m)
     E.rule_state_reset(res, "C08-R7", "C08-R7", m)
     E.rule_writes_inside_frame(res, "C08-R7", m, placement=True)
+    E.rule_last_segment_closes_frame(res, "C08-R8", m)
+    res.floor("C08-R8", 1)
     res.floor("C08-R7", 20)
     res.floor("C08-R1", 4)
     res.floor("C08-R2", 12)
